@@ -18,6 +18,7 @@ static Reply reply_from(const Json &j, int dflt) { Reply r; r.code = (int)j.geti
 static std::string render(const Reply &r) {
   if (!r.text.empty()) return r.text + "\r\n";
   std::string c = std::to_string(r.code); while (c.size() < 3) c = "0" + c;
+  if (r.form.compare(0, 5, "burst") == 0) { std::string b = c + " busy\r\n220 hi\r\n250 ok\r\n250 ok\r\n"; for (int q = atoi(r.form.c_str() + 5); q > 0; q--) b += "250 ok\r\n"; return b + "354 go\r\n250 done\r\n"; }   // a host that answers before it is asked: one packet with a whole session's worth of replies
   if (r.form == "multi") return c + "-first line\r\n" + c + "-second\r\n" + c + " last\r\n";
   if (r.form == "long") return c + " " + std::string(6000, 't') + "\r\n";
   if (r.form == "bin") return c + " \xff\xfe" + std::string(1, '\0') + "bin\r\n";
@@ -53,7 +54,8 @@ struct WorldSO : World, Net {
   Sink *rout = nullptr, *errs = nullptr;
   int remote_pid = 0, remote_status = -1; bool remote_done = false;
   // network script
-  struct HostAct { std::string kind = "accept"; int64_t delay = 0; bool immediate = false; };
+  struct HostAct { std::string kind = "accept"; int64_t delay = 0; bool immediate = false; bool has_greeting = false; Reply greeting; };
+  struct ConnRec { uint32_t ip = 0; size_t rcpt_ok = 0; bool dot_ok = false; }; std::vector<ConnRec> conns;   // ground truth per connection: what this server instance itself said yes to
   bool earlier_phase = false;
   std::map<uint32_t, HostAct> hosts; bool relay = false;
   Reply greeting, helo, mail, data, dot; std::vector<Reply> rcpt_r;
@@ -126,13 +128,15 @@ struct WorldSO : World, Net {
       std::vector<std::string> env = {"TCPREMOTEIP=10.9.9.9", "TCPREMOTEHOST=sender.example", "TCPLOCALHOST=sim.example"};
       k->spawn(nullptr, t.home + "/bin/qmail-smtpd", {"qmail-smtpd"}, env, {{0, k->of_pipe_r(c2s)}, {1, k->of_pipe_w(s2c)}, {2, k->of_sink(errs)}}, t.uids["qmaild"], t.gid_nofiles, "/");
     } else {
-      k->spawn_native(nullptr, "smtp-server", [this](int, char **) { return server_main(); }, {{0, k->of_pipe_r(c2s)}, {1, k->of_pipe_w(s2c)}}, 1, 1, "/");
+      k->spawn_native(nullptr, "smtp-server", [this, ip](int, char **) { return server_main(ip); }, {{0, k->of_pipe_r(c2s)}, {1, k->of_pipe_w(s2c)}}, 1, 1, "/");
     }
     return r;
   }
 
   // scripted SMTP server with a strict reference receiver for the DATA phase
-  int server_main() {
+  int server_main(uint32_t ip) {
+    size_t ci = conns.size(); { ConnRec c; c.ip = ip; conns.push_back(c); }
+    Reply greeting = this->greeting; { auto hi = hosts.find(ip); if (hi != hosts.end() && hi->second.has_greeting) greeting = hi->second.greeting; }
     k->cp()->sig[SIGPIPE].handler = SIG_IGN;
     std::string buf; bool eof = false;
     auto fill = [&]() -> bool { char b[1024]; ssize_t n = k->sys_read(0, b, sizeof b); if (n <= 0) { eof = true; return false; } buf.append(b, (size_t)n); wire.append(b, (size_t)n); return true; };
@@ -158,7 +162,7 @@ struct WorldSO : World, Net {
       std::string u = line; for (auto &c : u) c = (char)toupper((unsigned char)c);
       if (u.compare(0, 4, "HELO") == 0) { if (!say(helo)) return 0; }
       else if (u.compare(0, 4, "MAIL") == 0) { if (!say(mail)) return 0; }
-      else if (u.compare(0, 4, "RCPT") == 0) { Reply r = nrcpt < rcpt_r.size() ? rcpt_r[nrcpt] : Reply(); nrcpt++; if (!say(r)) return 0; }
+      else if (u.compare(0, 4, "RCPT") == 0) { Reply r = nrcpt < rcpt_r.size() ? rcpt_r[nrcpt] : Reply(); nrcpt++; if (!say(r)) return 0; if (r.text.empty() && r.code < 400) conns[ci].rcpt_ok++;   /* (qmail-remote takes everything below 400 for a yes) */ }
       else if (u.compare(0, 4, "DATA") == 0) {
         saw_data = true; if (!say(data)) return 0;
         if (data.code >= 400) continue;
@@ -167,6 +171,7 @@ struct WorldSO : World, Net {
         for (;;) { size_t e = std::string::npos; if (buf.compare(0, 3, ".\r\n") == 0) e = 0; else { size_t f = buf.find("\r\n.\r\n"); if (f != std::string::npos) e = f + 2; }
           if (e != std::string::npos) { payload = buf.substr(0, e); buf.erase(0, e + 3); data_done = true; break; } if (!fill()) return 0; }
         if (!say(dot)) return 0;
+        if (dot.text.empty() && dot.code < 400) conns[ci].dot_ok = true;
       }
       else if (u.compare(0, 4, "QUIT") == 0) { Reply q; q.code = 221; say(q); }
       else { Reply q; q.code = 502; say(q); }
@@ -201,7 +206,7 @@ struct WorldSO : World, Net {
     for (auto &p : z["a"].o) for (auto &m : p.second.a) zone.a[p.first].push_back((uint32_t)m.i());
     for (auto &p : z["fail"].o) zone.fail[p.first] = p.second.str();
     if (!kn.has("zone")) { zone.a[host].push_back(0x0a010101); }
-    for (auto &p : kn["hosts"].o) { HostAct h; h.kind = p.second.gets("kind", "accept"); h.delay = p.second.geti("delay", 0); h.immediate = p.second.getb("immediate", false); hosts[(uint32_t)strtoul(p.first.c_str(), 0, 10)] = h; }
+    for (auto &p : kn["hosts"].o) { HostAct h; h.kind = p.second.gets("kind", "accept"); h.delay = p.second.geti("delay", 0); h.immediate = p.second.getb("immediate", false); if (p.second.has("greeting")) { h.has_greeting = true; h.greeting = reply_from(p.second["greeting"], 220); } hosts[(uint32_t)strtoul(p.first.c_str(), 0, 10)] = h; }
     if (!kn.has("hosts")) hosts[0x0a010101] = HostAct();
     const Json &sv = kn["server"];
     greeting = reply_from(sv["greeting"], 220); helo = reply_from(sv["helo"], 250); mail = reply_from(sv["mail"], 250); data = reply_from(sv["data"], 354); dot = reply_from(sv["dot"], 250);
@@ -326,6 +331,13 @@ struct WorldSO : World, Net {
     // an injected allocation failure may end the attempt with a temporary failure at any point; it never justifies success
     { bool alloc_fault = false; for (auto &f : plan->faults) if (f.kind == "null") alloc_fault = true;
       if (alloc_fault && !segs.empty() && segs.back().compare(0, 14, "ZOut of memory") == 0) { for (size_t i = 0; i + 1 < segs.size(); i++) if (!segs[i].empty() && segs[i][0] == 'K') { violate("C09.false-success", outs); return; } k->probe("c09_out_of_memory_is_temporary"); return; } }
+    // ground truth, whatever the scripts were: success needs a server that itself answered the final dot of a DATA phase with 2xx on
+    // its own connection, an accepted recipient needs a server that answered a RCPT with 2xx (replies a previous host sent do not count)
+    if (!relay) { bool any_dot = false; size_t max_rcpt = 0; for (auto &c : conns) { if (c.dot_ok) any_dot = true; max_rcpt = std::max(max_rcpt, c.rcpt_ok); }
+      if (!segs.empty() && !segs.back().empty() && segs.back()[0] == 'K' && !any_dot) { violate("C09.false-success", "no server answered the end of the message positively on its own connection, yet qmail-remote reported " + outs); return; }
+      size_t nr = 0; for (size_t i = 0; i + 1 < segs.size(); i++) if (!segs[i].empty() && segs[i][0] == 'r') nr++; if (nr > max_rcpt) { violate("C09.recipient-accepted-without-server", std::to_string(nr) + " recipients reported accepted, no single connection saw more than " + std::to_string(max_rcpt) + " positive RCPT replies: " + outs); return; } }
+    // the script that counts is the one of the first host that accepted the connection
+    for (auto ip : connect_order) { auto it = hosts.find(ip); if (it != hosts.end() && it->second.kind == "accept") { if (it->second.has_greeting) greeting = it->second.greeting; break; } }
     // expected verdicts from the script
     std::vector<char> want_rcpt; char fin = 0; bool dup_warn = false; bool connected = false;
     // which address accepted the connection?
